@@ -432,9 +432,14 @@ def marking_args(rng, b, ver):
         return b.mk(rng.choice(list(TLP.values())))
     if r < 0.6:
         return b.mk(rng.sample(list(TLP.values()), rng.randint(1, 3)))
-    st = b.add(op="construct", cls=cls_name(ver, "StatementMarking"), kw=b.mk({"statement": "(c) %d" % rng.randint(0, 99)}))
-    md = b.add(op="construct", cls=cls_name(ver, "MarkingDefinition"),
-               kw=b.mk({"definition_type": "statement", "definition": Ref(st)}))
+    if rng.random() < 0.5:
+        st = b.add(op="construct", cls=cls_name(ver, "StatementMarking"), kw=b.mk({"statement": "(c) %d" % rng.randint(0, 99)}))
+    else:
+        st = b.mk({"statement": "(c) %d" % rng.randint(0, 99)})      # MarkingDefinition.__init__ builds the marking object
+    mkw = b.mk({"definition_type": "statement", "definition": Ref(st)})
+    md = b.add(op="construct", cls=cls_name(ver, "MarkingDefinition"), kw=mkw)
+    if rng.random() < 0.3:
+        b.add(op="construct", cls=cls_name(ver, "MarkingDefinition"), kw=mkw)       # the same mapping again
     if r < 0.8:
         return md
     return b.mk([Ref(md), rng.choice(list(TLP.values()))])
